@@ -28,7 +28,11 @@ pub use vharness::common::DAY;
 /// 2023-11-14T00:00:00Z: start of a UTC day, so that `T0 + k*DAY` are day starts
 pub const T0: i64 = 1_699_920_000_000;
 
-pub const MODEL: &str = "ns { Doc{ a:String, b:String nullable, refs:[ns.Doc] nullable } Plain(no_full_text_index){ a:String } Note{ a:String nullable, b:String nullable } Memo{ a:String nullable } }";
+pub const MODEL: &str = "ns { Doc{ a:String, b:String nullable, refs:[ns.Doc] nullable } Plain(no_full_text_index){ a:String } Note{ a:String nullable, b:String nullable, n:Integer nullable } Memo{ a:String nullable, n:Integer nullable } }";
+/// the same data model with one entity declared without full-text index (a later model version)
+pub fn model_with_index_off(entity: &str) -> String {
+    MODEL.replace(&format!(" {}{{", entity), &format!(" {}(no_full_text_index){{", entity))
+}
 
 pub struct Peer {
     pub db: GraphDatabaseService,
@@ -177,20 +181,26 @@ impl Net {
     /// creates a room on peer 0 in which every peer may write every entity (own and foreign rows)
     /// from `date` on, and copies the definition to every other peer
     pub async fn create_room(&self, date: i64, entities: &[&str]) -> Uid {
+        self.create_room_ext(date, entities, None).await
+    }
+    /// the same, but peer `self_only` (if any) is an ordinary member: it may write and delete its OWN rows
+    /// only (mutate_self without mutate_all), in a group of its own
+    pub async fn create_room_ext(&self, date: i64, entities: &[&str], self_only: Option<usize>) -> Uid {
         verif_clock::set(date);
         let mut p = Parameters::default();
         let mut users = vec![];
         for (i, peer) in self.peers.iter().enumerate() {
             p.add(&format!("k{}", i), base64_encode(&peer.vk)).unwrap();
-            users.push(format!("{{verif_key:$k{}}}", i));
+            if Some(i) != self_only { users.push(format!("{{verif_key:$k{}}}", i)); }
         }
         let users = users.join(",");
         let rights: Vec<String> = entities.iter().map(|e| format!("{{entity:\"{}\" mutate_self:true mutate_all:true}}", e)).collect();
-        let q = format!(
-            "mutate {{ sys.Room{{ admin:[{{verif_key:$k0}}] authorisations:[{{ name:\"g\" rights:[{}] users:[{}] }}] }} }}",
-            rights.join(","),
-            users
-        );
+        let mut groups = format!("{{ name:\"g\" rights:[{}] users:[{}] }}", rights.join(","), users);
+        if let Some(m) = self_only {
+            let own: Vec<String> = entities.iter().map(|e| format!("{{entity:\"{}\" mutate_self:true mutate_all:false}}", e)).collect();
+            groups.push_str(&format!(", {{ name:\"m\" rights:[{}] users:[{{verif_key:$k{}}}] }}", own.join(","), m));
+        }
+        let q = format!("mutate {{ sys.Room{{ admin:[{{verif_key:$k0}}] authorisations:[{}] }} }}", groups);
         let room = self.peers[0].db.mutate_raw(&q, Some(p)).await.expect("room creation");
         let room_id = room.mutate_entities[0].node_to_mutate.id;
         self.barrier(0).await;
@@ -408,7 +418,11 @@ pub struct Runner<'a> {
 
 impl<'a> Runner<'a> {
     pub async fn new(net: &'a Net, n: usize) -> Runner<'a> {
-        let room = net.create_room(T0 - 30 * DAY, &["ns.Doc", "ns.Plain"]).await;
+        Self::new_ext(net, n, None).await
+    }
+    /// `self_only`: that peer is an ordinary member of the room (own rows only)
+    pub async fn new_ext(net: &'a Net, n: usize, self_only: Option<usize>) -> Runner<'a> {
+        let room = net.create_room_ext(T0 - 30 * DAY, &["ns.Doc", "ns.Plain"], self_only).await;
         Runner { net, room, n, ids: vec![], steps: vec![], texts: 0 }
     }
     fn index_of(&self, id: &Uid) -> u64 {
@@ -789,4 +803,37 @@ pub async fn batch_boundary_history(r: &mut Runner<'_>, k: u64) -> usize {
     r.exec(Op::Pull { dst: 0, src: 1, t: t + 4000 }).await;
     r.exec(Op::Pull { dst: 1, src: 0, t: t + 4001 }).await;
     2
+}
+
+/// a removed reference must not come back: A removes x->y (deletion record, x re-dated); C, which has not
+/// seen the removal, modifies x later and also holds `extra` rows of the same day that A lacks; A pulls
+/// from C before C pulls from A (Query::Edges then carries x with A's date and the new rows with date 0)
+pub async fn removed_ref_history(r: &mut Runner<'_>, extra: u64, modify_by_ref: bool, next_day: bool) {
+    let t = T0 + 1000;
+    r.exec(Op::Create { p: 0, x: 1, t }).await;
+    r.exec(Op::Create { p: 0, x: 2, t: t + 1 }).await;
+    r.exec(Op::Create { p: 0, x: 3, t: t + 2 }).await;
+    r.exec(Op::AddRef { p: 0, x: 1, y: 2, t: t + 1000 }).await;
+    for d in 1..r.n { r.exec(Op::Pull { dst: d, src: 0, t: t + 1500 }).await; }
+    r.exec(Op::DelRef { p: 0, x: 1, y: 2, t: t + 5000 }).await;
+    let c = r.n - 1;
+    let t2 = if next_day { t + DAY } else { t + 10_000 };
+    if modify_by_ref { r.exec(Op::AddRef { p: c, x: 1, y: 3, t: t2 }).await; } else { r.exec(Op::Update { p: c, x: 1, t: t2 }).await; }
+    for i in 0..extra { let x = r.next_id(); r.exec(Op::Create { p: c, x, t: t2 + 100 + i as i64 }).await; }
+    r.exec(Op::Pull { dst: 0, src: c, t: t2 + 1000 }).await;
+}
+
+/// an ordinary member M (own rows only) creates and deletes its own rows; S holds the row when it is
+/// deleted, T never held it and pulls first from the deleter, then from the stale peer
+pub async fn self_only_history(r: &mut Runner<'_>, m: usize, s: usize, t_peer: usize, via: Option<usize>) {
+    let t = T0 + 1000;
+    r.exec(Op::Create { p: m, x: 1, t }).await;
+    r.exec(Op::Create { p: m, x: 2, t: t + 1 }).await;
+    r.exec(Op::Pull { dst: s, src: m, t: t + 100 }).await;
+    r.exec(Op::Delete { p: m, x: 1, t: t + 5000 }).await;
+    match via {
+        None => { r.exec(Op::Pull { dst: t_peer, src: m, t: t + 6000 }).await; }
+        Some(v) => { r.exec(Op::Pull { dst: v, src: m, t: t + 6000 }).await; r.exec(Op::Pull { dst: t_peer, src: v, t: t + 6100 }).await; }
+    }
+    r.exec(Op::Pull { dst: t_peer, src: s, t: t + 7000 }).await;
 }
